@@ -613,7 +613,7 @@ impl Prop for C01 {
 
     fn plan(&self, tier: Tier) -> Plan {
         let mut p = Plan::new(match tier {
-            Tier::Quick => 600,
+            Tier::Quick => 3000,
             Tier::Thorough => 8000,
         });
         p.workers = 5;
